@@ -88,6 +88,16 @@ def positional_mutants(d, rng):
                 if m is not None and m != d:
                     info['pos'] = pos
                     out.append({'d': d, 'other': m, 'mode': 'mut', 'info': info, 'side': rng.choice(['a', 'b'])})
+    if d['observations']:
+        # one more mutant per dataset with observations: an existing (image, feature) pair listed once more for its point
+        _FORCE[0] = 'dup'
+        try:
+            m, info = mutate(d, rng, 'observations', 'add')
+        finally:
+            _FORCE[0] = None
+        if m is not None and m != d:
+            info['pos'] = 'dup'
+            out.append({'d': d, 'other': m, 'mode': 'mut', 'info': info, 'side': rng.choice(['a', 'b'])})
     return out
 
 
@@ -250,7 +260,11 @@ def mutate(d, rng, part=None, kind=None):
             kind = 'add'
         if kind == 'add':
             kt = next(iter(d['keypoints'])) if d['keypoints'] else 'sift'
-            if v and (_FORCE[0] is not None or rng.random() < 0.7):
+            if v and (_FORCE[0] == 'dup' or (_FORCE[0] is None and rng.random() < 0.25)):
+                # the SAME (image, feature) pair listed once more for its point (Observations.add appends without
+                # de-duplication and the text format carries the repeat): only the multiplicity differs
+                v.append(list(rng.choice(v)))
+            elif v and (_FORCE[0] is not None or rng.random() < 0.7):
                 # one more observation on an EXISTING point (lowest, highest or any id), image sorting first or last
                 order = sorted(range(len(v)), key=lambda i: tuple(map(str, v[i])))
                 e = v[order[pick_pos(rng, len(v))]]
